@@ -75,6 +75,11 @@ def sizeOf62 (x : Nat) : Option Nat :=
   | some v => VarInt.size v
   | none => none
 
+/-- the `- self.error_code.size()` term of the close budget, present (flag 1) or not (flag 0) as generated
+    from the source; `none` = `VarInt::size` on a malformed value (`panic!`) -/
+def codeBudget (flag code : Nat) : Option Nat :=
+  if flag = 0 then some 0 else VarInt.size code
+
 /-- `max_len - overhead - sizes`: `none` = `usize` subtraction underflow (checked build) -/
 def closeBudget (maxLen overhead sizes : Nat) : Option Nat :=
   if maxLen < overhead + sizes then none else some (maxLen - overhead - sizes)
@@ -140,25 +145,25 @@ def encodeWith (withLen : Bool) (maxLen : Nat) : Frame → Option Bytes
     let buf := wVar code buf
     let ty := ftRaw frameType
     let buf := wVar ty buf
-    match sizeOf62 ty, sizeOf62 reason.length with
-    | some sty, some slen =>
-      match closeBudget maxLen Gen.closeConnOverhead (sty + slen) with
+    match codeBudget Gen.closeConnBudgetsCodeSize code, sizeOf62 ty, sizeOf62 reason.length with
+    | some scode, some sty, some slen =>
+      match closeBudget maxLen Gen.closeConnOverhead (scode + (sty + slen)) with
+      | none => none
+      | some budget =>
+        let actual := min reason.length budget
+        wBytes (reason.take actual) (wVar actual buf)
+    | _, _, _ => none
+  | .closeApp code reason =>
+    let buf := wVar Gen.ftApplicationClose (some [])
+    let buf := wVar code buf
+    match codeBudget Gen.closeAppBudgetsCodeSize code, sizeOf62 reason.length with
+    | some scode, some slen =>
+      match closeBudget maxLen Gen.closeAppOverhead (scode + slen) with
       | none => none
       | some budget =>
         let actual := min reason.length budget
         wBytes (reason.take actual) (wVar actual buf)
     | _, _ => none
-  | .closeApp code reason =>
-    let buf := wVar Gen.ftApplicationClose (some [])
-    let buf := wVar code buf
-    match sizeOf62 reason.length with
-    | some slen =>
-      match closeBudget maxLen Gen.closeAppOverhead slen with
-      | none => none
-      | some budget =>
-        let actual := min reason.length budget
-        wBytes (reason.take actual) (wVar actual buf)
-    | none => none
   | .datagram data =>
     let buf := wVar (datagramTy withLen) (some [])
     let buf := if withLen then wVar data.length buf else buf
